@@ -14,7 +14,7 @@ PROPS = {
         "claim": "every execution of 2-3 concurrent callers + scripted peer (answer/error/unknown id/late answer/EOF/read error) + optional canceller/Close thread/write faults within the deviation budget is run on the real jsonrpc2.Connection and checked against the completion oracle (own payload or an error with a cause that occurred; no blocked caller; late calls fail with the closing error)",
         "note": "assumes race-freedom between scheduling points; bounded to K<=3 callers and budget B<=2/3 deviations from the default schedule; map iteration order canonicalised",
         "parts": [
-            {"pkg": "mcp", "mode": "instr", "test": "TestVerifC01", "two_phase": True},
+            {"pkg": "mcp", "mode": "instr", "test": "TestVerifC01", "two_phase": True, "time_s": {"thorough": 1800}},
             {"pkg": "mcp", "mode": "race", "test": "TestVerifC01", "scenario_prefix": "free-race/", "free_runs": {"quick": 60, "thorough": 600}},
         ],
         "assumptions": E1_ASSUME + ["at most 3 concurrent calls, one call per caller"],
@@ -37,7 +37,7 @@ PROPS = {
         "claim": "for every sequence of length <=3 over {notification, tool call, ping} client->server and {progress, log, create-message} server->client, with every user handler parked on a gate that an idle-priority controller opens in every order, and every schedule within the deviation budget, the handler of a notification (and of initialized) finishes before any later message's handler starts; a raw peer whose slow initialize call has its context ended (notifications/cancelled for it, or a disconnect) followed by a ping / call / notification: the later handler still does not start before the initialize handler finished; a liveness scenario shows calls do overlap",
         "note": "in-memory transport only in this check (HTTP transports are exercised by C02/C10 harnesses); sequences longer than 3 and budgets beyond B are outside the bound",
         "parts": [
-            {"pkg": "mcp", "mode": "instr", "test": "TestVerifC03", "two_phase": True},
+            {"pkg": "mcp", "mode": "instr", "test": "TestVerifC03", "two_phase": True, "time_s": {"thorough": 1800}},
             {"pkg": "mcp", "mode": "race", "test": "TestVerifC03", "scenario_prefix": "free-race/", "free_runs": {"quick": 60, "thorough": 600}},
         ],
         "assumptions": E1_ASSUME,
@@ -49,7 +49,7 @@ PROPS = {
         "claim": "(i) real sessions: two in-flight tool calls, which one is cancelled and when (early, at first idle moment, after return) plus schedule deviations; only the matching handler may observe ctx.Done, the caller returns with zero virtual time after cancel, the session stays usable; (ii) mcp call() over a scripted transport whose peer answers, answers after the cancel, never answers, or parks the request / the cancel notice write until its context ends: prompt return, the other in-flight call and later calls unaffected, nothing left after the 5s notice timeout; (iii) a raw peer with two gated tool calls in flight on a server session, optionally a third request reusing either id (refused), then notifications/cancelled for either id: exactly that handler observes ctx.Done, both calls are answered, the session answers a final ping; (iv) a handler's nested server-to-client request abandoned while the tool call is in flight over streamable HTTP (with and without a standalone stream): the notifications/cancelled travels on the call's own exchange and names the abandoned request; (v) real client over in-process streamable HTTP (stateful legacy and stateless 2026-07-28 with PropagateRequestCancellation, SSE and JSON responses, with and without a second call in flight) and a scripted peer that sends JSON headers at once and the body late: the cancelled call returns at once with the context's error, exactly its server-side handler is cancelled, the other call and later calls succeed",
         "note": "two concurrent calls; budget-bounded schedules; virtual time (a return that needs a timer is a violation)",
         "parts": [
-            {"pkg": "mcp", "mode": "instr", "test": "TestVerifC04", "two_phase": True, "scenario_exclude": "http/"},
+            {"pkg": "mcp", "mode": "instr", "test": "TestVerifC04", "two_phase": True, "scenario_exclude": "http/", "time_s": {"thorough": 1800}},
             {"pkg": "mcp", "mode": "plain", "test": "TestVerifC04HTTP", "shards": 1, "scenario_prefix": "http/"},
             {"pkg": "mcp", "mode": "race", "test": "TestVerifC04", "scenario_prefix": "free-race/", "free_runs": {"quick": 60, "thorough": 600}},
         ],
@@ -62,9 +62,9 @@ PROPS = {
         "claim": "on every explored execution no handler starts for a request handed over after the close was recorded, such calls get the closing error, running handlers finish before the transport is closed, Close and Wait return, nothing is left running (bubble exit), no panic",
         "note": "handlers return (gates are opened by the idle-priority controller) and the transport honours Close, as the property presumes; bounded budgets",
         "parts": [
-            {"pkg": "internal/jsonrpc2", "mode": "instr", "test": "TestVerifC05", "scenario_prefix": "a/", "two_phase": True},
+            {"pkg": "internal/jsonrpc2", "mode": "instr", "test": "TestVerifC05", "scenario_prefix": "a/", "two_phase": True, "time_s": {"thorough": 1800}},
             {"pkg": "internal/jsonrpc2", "mode": "race", "test": "TestVerifC05", "scenario_prefix": "free-race/", "free_runs": {"quick": 60, "thorough": 600}},
-            {"pkg": "mcp", "mode": "instr", "test": "TestVerifC05", "scenario_prefix": "b/", "two_phase": True},
+            {"pkg": "mcp", "mode": "instr", "test": "TestVerifC05", "scenario_prefix": "b/", "two_phase": True, "time_s": {"thorough": 1800}},
             {"pkg": "mcp", "mode": "race", "test": "TestVerifC05", "scenario_prefix": "free-race/", "free_runs": {"quick": 60, "thorough": 600}},
         ],
         "assumptions": E1_ASSUME,
@@ -109,7 +109,7 @@ PROPS = {
         "claim": "(E1) legacy session, 2026-07-28 session with a matching subscriptions/listen and one without: for every burst of 1-3 add/remove changes, every placement of the 10ms debounce timer and every schedule within the budget, each entitled session receives a tools/list_changed after the last change whose handler-time tools/list equals the final server state, unentitled sessions and a server with the capability disabled send none, a list after the handled notification is never an older cached answer (TTL 0 and 60s, with a list call in flight across the change), a session whose peer stopped draining or whose transport fails during the fan-out does not deprive the other sessions of their notification (either connection order), closed sessions leave no subscription; (E2) all histories up to the depth over subscribe/unsubscribe/resource-updated/close for two legacy and one modern session: resources/updated reaches exactly the currently subscribed sessions",
         "note": "three sessions, one URI, bursts of <=3 changes; budgets B<=1 (quick) / 2 (thorough)",
         "parts": [
-            {"pkg": "mcp", "mode": "instr", "test": "TestVerifC18", "scenario_prefix": "burst/", "two_phase": True},
+            {"pkg": "mcp", "mode": "instr", "test": "TestVerifC18", "scenario_prefix": "burst/", "two_phase": True, "time_s": {"thorough": 1800}},
             {"pkg": "mcp", "mode": "race", "test": "TestVerifC18", "scenario_prefix": "free-race/", "free_runs": {"quick": 60, "thorough": 600}},
             {"pkg": "mcp", "mode": "plain", "test": "TestVerifC18Resources", "scenario_prefix": "resource-", "shards": 1, "gomaxprocs": 16, "time_s": {"quick": 120, "thorough": 1200}},
         ],
@@ -156,7 +156,7 @@ PROPS = {
         "note": "a custom transport's ProtocolVersionSupporter is only held against versions >= 2026-07-28 (it filters what server/discover advertises; the legacy initialize handshake does not consult it)",
         "parts": [
             {"pkg": "mcp", "mode": "plain", "test": "TestVerifC07", "shards": 8, "scenario_prefix": ""},
-            {"pkg": "mcp", "mode": "instr", "test": "TestVerifC07Race", "scenario_prefix": "sse/discover-races"},
+            {"pkg": "mcp", "mode": "instr", "test": "TestVerifC07Race", "scenario_prefix": "sse/discover-races", "time_s": {"thorough": 1800}},
             {"pkg": "mcp", "mode": "race", "test": "TestVerifC07Race", "scenario_prefix": "free-race/", "free_runs": {"quick": 60, "thorough": 600}},
         ],
         "assumptions": E1_ASSUME,
@@ -168,7 +168,7 @@ PROPS = {
         "note": "one request stream with 4 messages; purge/eviction of the event store is covered by C20, not here; concurrent Write vs. serveGET interleavings below the request level are not explored (requests are run to quiescence)",
         "parts": [
             {"pkg": "mcp", "mode": "plain", "test": "TestVerifC08", "shards": 1, "gomaxprocs": 16, "time_s": {"quick": 150, "thorough": 1500}, "scenario_prefix": "re"},
-            {"pkg": "mcp", "mode": "instr", "test": "TestVerifC08Race", "two_phase": True, "scenario_prefix": "race/"},
+            {"pkg": "mcp", "mode": "instr", "test": "TestVerifC08Race", "two_phase": True, "scenario_prefix": "race/", "time_s": {"thorough": 1800}},
             {"pkg": "mcp", "mode": "race", "test": "TestVerifC08Race", "scenario_prefix": "free-race/", "free_runs": {"quick": 60, "thorough": 600}},
         ],
         "assumptions": ["synctest.Wait() quiescence = all bytes the server can write have been written and read"],
@@ -191,7 +191,7 @@ PROPS = {
         "claim": "two sessions (same JSON-RPC ids in both) x two concurrent tools/call POSTs each, each handler sending a request-scoped progress notification and then parking on a gate released in every order, stateful SSE/JSON and stateless, plus each session's standalone stream: on every explored schedule each exchange carries exactly the response (and request-scoped notifications) of its own request, standalone streams carry only their own session's notifications and never a response; a duplicate in-flight id on one session never makes a response travel on the other POST's exchange; request A's exchange cut while its handler runs, then a sequential POST B reusing A's id (with and without an event store): B's exchange never carries A's response",
         "note": "two sessions, two requests per session; budgets B<=1 (quick) / 2 (thorough), B<=2/3 for the duplicate-id scenarios; resumed streams are covered by C08",
         "parts": [
-            {"pkg": "mcp", "mode": "instr", "test": "TestVerifC10", "two_phase": True},
+            {"pkg": "mcp", "mode": "instr", "test": "TestVerifC10", "two_phase": True, "time_s": {"thorough": 1800}},
             {"pkg": "mcp", "mode": "race", "test": "TestVerifC10", "scenario_prefix": "free-race/", "free_runs": {"quick": 60, "thorough": 600}},
         ],
         "assumptions": E1_ASSUME,
